@@ -638,6 +638,10 @@ static void ZSTDMT_serialState_ensureFinished(serialState_t* serialState,
         serialState->nextJobID = jobID + 1;
         ZSTD_pthread_cond_broadcast(&serialState->cond);
 
+        /* The frame is lost : jobs which still take their serial turn must neither read
+         * the LDM history (no longer protected from the main thread once ldmWindow is cleared)
+         * nor publish a window again (nobody would clear it). The next frame re-assigns params. */
+        serialState->params.ldmParams.enableLdm = ZSTD_ps_disable;
         ZSTD_PTHREAD_MUTEX_LOCK(&serialState->ldmWindowMutex);
         ZSTD_window_clear(&serialState->ldmWindow);
         ZSTD_pthread_cond_signal(&serialState->ldmWindowCond);
